@@ -9,6 +9,7 @@ states x compression methods x truncation settings for `apply`.  Oracle: dense K
 dense state vectors (c11_dense.py).  The per-case checks live in c11_ops.py; this module only enumerates.
 """
 import itertools
+import logging
 import traceback
 import warnings
 
@@ -215,6 +216,7 @@ def describe(kind, case):
 def run_unit(unit):
     kind, a, b, tier, seed = unit
     warnings.simplefilter('ignore')
+    logging.disable(logging.WARNING)  # (the library logs e.g. projections in canonical_form_infinite)
     ev = nt = 0
     viol, per_key, outcomes, samples = [], {}, set(), []
     for case in itertools.islice(cases(kind, tier, seed), a, b):
